@@ -220,6 +220,9 @@ def build(d, tag, log):
             return Sequence(BlockEl(tag, log))
         if form == "filter_seq":
             return Sequence(FilterEl(tag, log), map_fn(tag))
+        if form == "fc_in_seq":
+            # a ready Sequence OBJECT holding a fill/compute element: still "a plain Sequence run on that block"
+            return Sequence(FC(tag, None, 1, log))
         if form == "tuple_block":
             return (map_fn(tag), BlockEl(tag, log))
         if form == "count":
@@ -303,7 +306,9 @@ class Ref(object):
     def run(self, blk):
         t, f = self.tag, self.form
         self.runs += 1
-        if f not in ("map", "mutmap"):
+        if f == "fc_in_seq":
+            self.calls["compute"] += 1          # the Run adapter of the Sequence computes the element once per block
+        elif f not in ("map", "mutmap"):
             self.calls["run"] += 1
         if f == "map":
             return [(t, "map", v) for v in blk]
@@ -313,6 +318,10 @@ class Ref(object):
             return [(t, "block", tuple(blk))]
         if f == "filter_seq":
             return [(t, "map", v) for v in blk if keep(v)]
+        if f == "fc_in_seq":
+            # Sequence(el).run(block): the element is filled with the block (it keeps what earlier blocks filled) and computed
+            self.filled.extend(blk)
+            return [(t, "compute", 0, tuple(self.filled))]
         if f == "tuple_block":
             return [(t, "block", tuple((t, "map", v) for v in blk))]
         if f == "count":
@@ -740,6 +749,7 @@ def all_forms():
         {"k": "fr", "form": "split", "sub": sub_fr}, {"k": "fr", "form": "zip", "sub": sub_fr},
         {"k": "seq", "form": "map"}, {"k": "seq", "form": "block"}, {"k": "seq", "form": "block_seq"},
         {"k": "seq", "form": "filter_seq"}, {"k": "seq", "form": "tuple_block"}, {"k": "seq", "form": "count"},
+        {"k": "seq", "form": "fc_in_seq"},
     ]
 
 
